@@ -187,6 +187,7 @@ def g10_g11(ctx):
     g = ctx.grammar
     r = RuleResult('G10', 'strict entries demand end of input; both delimiters are mandatory; no optional closer')
     r11 = RuleResult('G11', 'incomplete entries are the strict ones with many_till(X, eof) relaxed to many0(X), built from total combinators')
+    r21 = RuleResult('G21', 'an entry whose end-of-input check is imposed by its caller is total itself, so the error lies where its repetition stopped')
     tgt = entry_targets(g)
     ents = entries_of(g)
     r.exactly('entries_with_resolved_target', len(tgt), len(ents))
@@ -222,6 +223,17 @@ def g10_g11(ctx):
                         if sx.is_call(n, 'all_consuming') and len(n['args']) == 1 and sx.path_last(n['args'][0]) == e:
                             wrapped += 1
             r.inst('strict-by-caller:' + e, {'entry': e, 'uses': users, 'wrapped_in_all_consuming': wrapped})
+            if users and users == wrapped:
+                # the caller turns "stopped before the end" into the error: its position is the start of the first item that
+                # does not parse (never after the fault) only if the entry itself cannot fail
+                parts_ = ir['parts'] if ir.get('op') == 'seq' else [ir]
+                for p_ in parts_:
+                    r21.inst('total:%s:%s' % (t.name, grammar.show(p_)[:30]), {'entry': e, 'grammar_fn': t.name, 'step': grammar.show(p_)[:60]})
+                    if p_.get('op') not in ('many0', 'opt'):
+                        r21.fail('%s:%s:not-total:%s' % (g.crate, t.name, grammar.show(p_)[:40]), '%s/%s:%s' % (g.crate, t.file, p_.get('l') or t.line),
+                                 '`%s` (entry %s, made strict by all_consuming in its caller): top-level step %s can fail, so a lexical fault is reported at the '
+                                 'deepest position reached inside the failing item — which can lie after the fault — instead of at the start of the first item '
+                                 'that does not parse' % (t.name, e, grammar.show(p_)[:60]))
             if not ok and (users == 0 or users != wrapped):
                 r.fail('%s:%s:caller-not-strict' % (g.crate, e), '-',
                        'entry `%s` does not demand end of input itself and %d of its %d uses are not wrapped in '
@@ -286,7 +298,8 @@ def g10_g11(ctx):
                          '%s raises nom::Err::Failure / cut(): a Failure aborts many0/opt/alt, so incomplete mode can fail' % fn['name'])
     r11.inst('no-failure', {'Err::Failure_or_cut_sites': nf})
     r11.floor('sibling_pairs', len(pairs), 2)
-    return [r, r11]
+    r21.floor('caller_strict_entries', len({k.split(':')[1] for k in r21.keys}), 1)
+    return [r, r11, r21]
 
 
 # ------------------------------------------------------------------------- G12
